@@ -296,6 +296,9 @@ func (g *Genome) mutateAddLink(innovations InnovationsObserver, generation int, 
 		// Now add the new Gene to the Genome
 		if gene != nil {
 			g.geneInsert(gene)
+			// The phenotype used for the recurrence test above was built before the gene was added and does not
+			// express it: forget it, so that whoever asks next (e.g. the organism created from this genome) builds a current one
+			g.Phenotype = nil
 		}
 	}
 
